@@ -500,7 +500,7 @@ class Interp:
             return r
         if op in BITW:
             if isinstance(ty, TBool):
-                return {"&": z3.And(x, y), "|": z3.Or(x, y), "^": z3.Xor(x, y)}[op]
+                return {"&": z3.And(x, y), "|": z3.Or(x, y), "^": x != y}[op]
             return {"&": x & y, "|": x | y, "^": x ^ y}[op]
         raise ValueError(op)
 
